@@ -6,6 +6,7 @@ import petl as etl
 from hypothesis import strategies as st
 
 from pv import gen, codec
+from pv import scale
 from pv import catgen
 from pv.core import Sub, Fail, exc_fail, two_iterators
 from pv.order import ref_cmp, ref_key
@@ -129,6 +130,12 @@ def case(draw, tier):
         c["field"] = draw(st.sampled_from([hdr[fi], fi]))
         c["include_original"] = draw(st.booleans())
         c["missing"] = draw(st.sampled_from([None, "M", None, "M", 0, "", False]))
+    # one case in ten at scale: the data rows repeated past the sizes small examples never reach (100 fields after a
+    # transpose, a 1000-row sample, a 2048-row buffer); the reference is computed on the big table itself
+    if op not in ("melt_recast",) and len(c["table"]) > 1:
+        b = draw(scale.blowup(sizes=[101, 130, 257, 1001, 1025, 2049] if op != "pivot" else [101, 257, 1001], wide=False))
+        if b:
+            c["blowup"] = b
     return c
 
 
@@ -138,6 +145,9 @@ def _T(rows):
 
 def check(case, ctx):
     op, tbl = case["op"], case["table"]
+    if case.get("blowup") and len(tbl) > 1:
+        tbl = scale.apply(tbl, case["blowup"])
+        scale.label(ctx, case["blowup"])
     hdr = list(tbl[0])
     rows = _T(tbl[1:])
     nf = len(hdr)
@@ -146,6 +156,12 @@ def check(case, ctx):
     ctx.nontrivial(len(rows) >= 2 and nf >= 2)
 
     def fail(kind, got, exp):
+        if case.get("blowup"):
+            got_, exp_ = (got, exp) if isinstance(got, list) and isinstance(exp, list) else ([got], [exp])
+            k = next((i for i, (g, x) in enumerate(zip(got_, exp_)) if not codec.strict_eq(g, x)), min(len(got_), len(exp_)))
+            return Fail("%s/%s" % (op, kind), "%s on %d rows (the rows of %r repeated) (%r): %d items out, reference %d; first difference at "
+                        "item %d: %.300r vs %.300r" % (op, len(tbl) - 1, case["table"], {k_: v for k_, v in case.items() if k_ not in ("table", "op")},
+                                                   len(got_), len(exp_), k, got_[k:k + 1], exp_[k:k + 1]))
         return Fail("%s/%s" % (op, kind), "%s on %r (%r) gave %r, reference %r" % (op, tbl, {k: v for k, v in case.items() if k not in ("table", "op")}, got, exp))
     try:
         if op in ("melt_recast", "melt"):
@@ -210,7 +226,8 @@ def check(case, ctx):
                 if ss is not None:
                     kw["samplesize"] = ss
                     ctx.label("samplesize")
-                variables = sorted(set(r[vi] for r in (rows if ss is None else rows[:ss])))
+                # (documented: the variables are discovered from the first `samplesize` rows, 1000 by default)
+                variables = sorted(set(r[vi] for r in rows[:1000 if ss is None else ss]))
             RED = {"sum": sum, "max": max, "len": len, "min": min}
             red = dict((k, RED[v]) for k, v in (case.get("reducers") or {}).items())
             if case.get("reducers"):
